@@ -1,7 +1,6 @@
 package core
 
 import (
-	"bufio"
 	"bytes"
 	"crypto/sha1"
 	"encoding/binary"
@@ -54,6 +53,7 @@ func hostScratch() string {
 // hang with the culprit case attributed.
 func runWorker(opt Options, c *Check, shard, n int, deadline time.Time, out *merged, mu *sync.Mutex) {
 	resume := int64(-1)
+	var skip []string
 	exe := opt.Exe
 	if exe == "" {
 		exe, _ = os.Executable()
@@ -63,17 +63,22 @@ func runWorker(opt Options, c *Check, shard, n int, deadline time.Time, out *mer
 	crashes := 0
 	for {
 		prog := filepath.Join(dir, "progress")
+		resPath := filepath.Join(dir, "result.json")
+		os.Remove(resPath)
 		os.WriteFile(prog, make([]byte, 8), 0o644)
 		args := []string{"--worker", opt.Prop, "--tier", opt.Tier, "--shard", strconv.Itoa(shard), "--nshards", strconv.Itoa(n),
 			"--deadline", strconv.FormatInt(deadline.Unix(), 10), "--resume", strconv.FormatInt(resume, 10),
-			"--progress", prog, "--seed", strconv.FormatInt(opt.Seed, 10)}
+			"--progress", prog, "--seed", strconv.FormatInt(opt.Seed, 10), "--result", resPath}
+		if len(skip) > 0 {
+			args = append(args, "--skip", strings.Join(skip, ","))
+		}
 		if opt.OnlyIndex >= 0 {
 			args = append(args, "--only", strconv.FormatInt(opt.OnlyIndex, 10))
 		}
 		cmd := exec.Command(exe, args...)
 		cmd.Dir = dir
-		var stdout, stderr bytes.Buffer
-		cmd.Stdout = &stdout
+		var stderr bytes.Buffer
+		cmd.Stdout = &limitedWriter{max: 1 << 16, buf: new(bytes.Buffer)}
 		cmd.Stderr = &limitedWriter{max: 1 << 16, buf: &stderr}
 		gomax := "1"
 		if c.NoShard {
@@ -88,7 +93,7 @@ func runWorker(opt Options, c *Check, shard, n int, deadline time.Time, out *mer
 			mu.Unlock()
 			return
 		}
-		// watchdog: no progress for 120 s => hang
+		// watchdog: no progress for 150 s => hang
 		doneCh := make(chan error, 1)
 		go func() { doneCh <- cmd.Wait() }()
 		var werr error
@@ -100,12 +105,12 @@ func runWorker(opt Options, c *Check, shard, n int, deadline time.Time, out *mer
 			select {
 			case werr = <-doneCh:
 				break loop
-			case <-time.After(2 * time.Second):
+			case <-time.After(1 * time.Second):
 				cur := readProgress(prog)
 				if cur != last {
 					last = cur
 					lastChange = time.Now()
-				} else if time.Since(lastChange) > 150*time.Second {
+				} else if time.Since(lastChange) > HangAfter {
 					hung = true
 					cmd.Process.Signal(syscall.SIGKILL)
 					werr = <-doneCh
@@ -113,20 +118,15 @@ func runWorker(opt Options, c *Check, shard, n int, deadline time.Time, out *mer
 				}
 			}
 		}
-		// parse what the worker managed to say
+		// the (possibly partial) cumulative result of this process run
 		var wr *WorkerResult
-		sc := bufio.NewScanner(bytes.NewReader(stdout.Bytes()))
-		sc.Buffer(make([]byte, 1<<20), 1<<30)
-		for sc.Scan() {
-			line := sc.Bytes()
-			if bytes.HasPrefix(line, []byte("RESULT ")) {
-				var r WorkerResult
-				if err := json.Unmarshal(line[7:], &r); err == nil {
-					wr = &r
-				}
+		if b, err := os.ReadFile(resPath); err == nil {
+			var r WorkerResult
+			if json.Unmarshal(b, &r) == nil {
+				wr = &r
 			}
 		}
-		if werr == nil && wr != nil {
+		if werr == nil && wr != nil && wr.Final {
 			mu.Lock()
 			out.merge(wr)
 			mu.Unlock()
@@ -154,14 +154,17 @@ func runWorker(opt Options, c *Check, shard, n int, deadline time.Time, out *mer
 		mu.Lock()
 		out.fatals = append(out.fatals, d)
 		if wr != nil {
-			// partial result is not available on crash (result printed at the end); nothing to merge
+			// keep what the run had checkpointed; the restart resumes right after it
+			wr.Complete = true
+			out.merge(wr)
+			resume = wr.LastIndex
 		}
 		mu.Unlock()
 		if opt.OnlyIndex >= 0 {
 			return
 		}
-		resume = culprit
-		if crashes > 60 {
+		skip = append(skip, strconv.FormatInt(culprit, 10))
+		if crashes > 200 {
 			mu.Lock()
 			out.Complete = false
 			out.CapsHit = append(out.CapsHit, fmt.Sprintf("shard %d abandoned after %d fatal crashes", shard, crashes))
@@ -170,6 +173,9 @@ func runWorker(opt Options, c *Check, shard, n int, deadline time.Time, out *mer
 		}
 	}
 }
+
+// HangAfter is the no-progress interval after which a worker is declared hung.
+var HangAfter = 150 * time.Second
 
 type limitedWriter struct {
 	max int
